@@ -115,6 +115,9 @@ type Case struct {
 	// it is asked (legal for a net.Conn): Serve asks between Accept and the start
 	// of the handler, so "accepted" and "handler running" are distinguishable.
 	SlowAddr bool `json:"slow_addr,omitempty"`
+	// ListenerClosedFirst: the owner of the listener closes it and Serve has
+	// returned (no accept loop is running any more) before Close() is called.
+	ListenerClosedFirst bool `json:"listener_closed_first,omitempty"`
 }
 
 // trackListener records when each accepted connection's Close has completed.
@@ -126,6 +129,12 @@ type trackListener struct {
 	// accepted: handed out by Accept (recorded before Accept returns)
 	accepted map[string]bool
 	slowAddr time.Duration
+	closes   int32 // calls of Close: the owner's, then the one Serve makes when it returns
+}
+
+func (l *trackListener) Close() error {
+	atomic.AddInt32(&l.closes, 1)
+	return l.Listener.Close()
 }
 
 func (l *trackListener) Accept() (net.Conn, error) {
@@ -704,6 +713,14 @@ func runOnce(c Case, T time.Duration) (v kit.Verdict) {
 	time.Sleep(5 * time.Millisecond)
 
 	// ---- request shutdown
+	if c.ListenerClosedFirst && !c.RawListener && !c.Shaped {
+		pr.L.Close()
+		// Serve closes its listener (again) on the way out
+		if !kit.Eventually(3*T, func() bool { return atomic.LoadInt32(&tl.closes) >= 2 }) {
+			return kit.Failf("C07/harness/serve-did-not-return-timeout", "the listener was closed; Serve has not returned")
+		}
+		time.Sleep(2 * time.Millisecond)
+	}
 	closeStarted = true
 	go func() {
 		p.Close()
@@ -1160,6 +1177,9 @@ func genCase(t *rapid.T) Case {
 			}
 		}
 	}
+	if !c.RawListener && !c.Shaped && rapid.IntRange(0, 5).Draw(t, "listener_closed_first") == 0 {
+		c.ListenerClosedFirst = true
+	}
 	normalize(&c)
 	c.NewDuring = rapid.Bool().Draw(t, "new_during")
 	c.NewAfter = rapid.Bool().Draw(t, "new_after")
@@ -1254,6 +1274,9 @@ func classes(c Case) []string {
 	}
 	if c.SlowAddr {
 		set["handler-starts-late-after-accept"] = true
+	}
+	if c.ListenerClosedFirst {
+		set["listener-closed-before-shutdown"] = true
 	}
 	if c.ShortTimeout {
 		set["exchange-parked-longer-than-the-proxy-timeout"] = true
@@ -1382,6 +1405,10 @@ func TestEdgeShapes(t *testing.T) {
 				}
 				if sh.Point == "idle-fresh" || sh.Point == "head-fresh" {
 					c.SlowAddr = true
+				}
+				// (a few of the shapes with the accept loop already gone)
+				if with && (sh.Point == "reqmod" || sh.Point == "mitm-idle-tunnel") && !sh.Skip && !sh.Connect {
+					c.ListenerClosedFirst = true
 				}
 				normalize(&c)
 				finish(&c, func(k int) []int { return seq(k) })
